@@ -260,11 +260,27 @@ def is_unmodelled_trace(model) -> bool:
     return model == "unmodelled" or (isinstance(model, list) and any(it[0] == "unmodelled" for it in model))
 
 
+def _add(path, orig, **kw) -> dict:
+    return {"op": "add", "path": path, "orig": orig, "cls": True, "sing": False, "uniq": True, "sgsfx": None, "loaded": True, **kw}
+
+
+# hand-written sequences: the witnesses of Props/C06.lean and past model corrections, run first
+SEQ_CORPUS = [
+    {"excl": [], "sfx": "", "sing": None, "ops": [_add(["#/definitions", "Pet"], "Pet"), {"op": "addref", "ref": "#/definitions/pet", "resolved": False}, _add(["#/definitions", "pet"], "pet")]},
+    {"excl": [], "sfx": "", "sing": None, "ops": [_add(["a"], "x.Pet"), _add(["b"], "x.Pet")]},
+    {"excl": [], "sfx": "", "sing": None, "ops": [{"op": "addref", "ref": "#/definitions/Pet", "resolved": False}, {"op": "del", "arg": {"s": "#/definitions/Pet"}}, {"op": "addref", "ref": "#/definitions/Pet", "resolved": False}]},
+    {"excl": ["Pet2"], "sfx": "", "sing": None, "ops": [_add(["a"], "Pet"), _add(["b"], "pet"), _add(["c"], "Pet_"), _add(["d"], "Pets", sing=True), _add(["e"], "Pets-item")]},
+    {"excl": ["Optional"], "sfx": "Model", "sing": None, "ops": [_add(["#"], "Root"), _add(["#/definitions/Optional"], "Optional"), _add(["#/definitions/optional"], "Optional1"), _add(["#/definitions/o"], "Optional")]},
+    {"excl": [], "sfx": "", "sing": "", "ops": [{"op": "root", "root": ["dir", "b.json"]}, {"op": "addref", "ref": "#", "resolved": False}, {"op": "addref", "ref": "a.json", "resolved": False}, {"op": "addref", "ref": "x.y.json#/definitions/pet", "resolved": False}, {"op": "get", "arg": {"q": ["dir", "b.json", "#/definitions", "Pet"]}}, _add(["dir", "b.json", "#/definitions", "Pet"], "", cls=False)]},
+    {"excl": [], "sfx": "", "sing": None, "ops": [{"op": "addref", "ref": "#foo", "resolved": False}, {"op": "addref", "ref": "", "resolved": False}, {"op": "addref", "ref": "", "resolved": True}, {"op": "get", "arg": {"s": "http://h/x#/a"}}]},
+]
+
+
 def campaign_sequences(ck: Check, n: int, label: str = "", cases: list | None = None) -> list:
     camp = ck.campaign("Resolver.step vs real ModelResolver: operation sequences, state compared after every op" + label)
     t0 = time.time()
     rng = ck.rng.fork("sequences" + label)
-    cases = list(cases or []) + [gen_sequence(rng) for _ in range(n)]
+    cases = list(cases if cases is not None else SEQ_CORPUS) + [gen_sequence(rng) for _ in range(n)]
     impl = [run_impl(c) for c in cases]
     replies = ck.driver.run([enc_case(c, tab) for c, (_, tab) in zip(cases, impl)])
     bad = []
@@ -399,7 +415,10 @@ def campaign_functions(ck: Check, n: int) -> None:
         finally:
             base.set_current_root([])
 
-    rcases = [[list(rng.choice(ROOTS + [["http://h", "x.json"]])), rng.choice(ref_pool)] for _ in range(n)]
+    rcases = []
+    for _ in range(n):
+        root = ["http://h", "x.json"] if rng.chance(1, 15) else list(rng.choice(ROOTS))
+        rcases.append([root, rng.choice(ref_pool)])
     simple_campaign(
         ck, "resolveRef vs ModelResolver.resolve_ref (local pointers, plain relative files)", rcases,
         lambda c: f"res.resolve {enc_strs(c[0])} {hx(c[1])}", real_resolve,
@@ -526,42 +545,57 @@ E2E_CONTAINERS = ["definitions", "$defs", "components/schemas"]
 WRAPPERS = {"Optional", "List", "Union", "Sequence", "NotRequired", "Required", "Annotated", "Set", "Dict", "Mapping"}
 
 
-def ref_to(case: dict, i_from: int | None, j: int, deep: bool = False) -> str:
+def cont_of(case: dict, j: int) -> str:
+    return (case.get("containers") or [case["container"]] * len(case["keys"]))[j]
+
+
+def ref_to(case: dict, i_from: int | None, j: int, kind: str = "ref") -> str:
     """JSON reference from definition i_from (None = root object of main.json) to definition j"""
     files = case.get("files") or [0] * len(case["keys"])
     f_from = 0 if i_from is None else files[i_from]
-    file_part = "" if files[j] == f_from else ("other.json" if files[j] == 1 else "main.json")
-    return f"{file_part}#/{case['container']}/{case['keys'][j]}" + (f"/properties/sub{j}" if deep else "")
+    same_file = files[j] == f_from
+    if kind == "anchor" and same_file:
+        return f"#anc{j}"
+    file_part = "" if same_file else ("other.json" if files[j] == 1 else "main.json")
+    return f"{file_part}#/{cont_of(case, j)}/{case['keys'][j]}" + (f"/properties/sub{j}" if kind == "deep" else "")
 
 
 def build_e2e_doc(case: dict) -> tuple[typing.Any, str]:
-    """case = {container, keys (document order), edges [[i, j, 'ref'|'array'|'deep']], root_refs [i…],
-    files (optional: 0 = main.json, 1 = other.json per definition)}.
+    """case = {container, keys (document order), edges [[i, j, 'ref'|'array'|'deep'|'anchor']], root_refs [i…],
+    files (optional: 0 = main.json, 1 = other.json per definition),
+    containers (optional: container per definition, for documents that have `definitions` AND `$defs`)}.
     Every definition i carries the marker member `mk{i}x`; the root object carries `mkrootx`; a definition
-    that is the target of a 'deep' edge has a nested object `sub{j}` with marker `mkd{j}x`.
+    that is the target of a 'deep' edge has a nested object `sub{j}` with marker `mkd{j}x`; the target of an
+    'anchor' edge has `$id: "#anc{j}"`.
     Returns (document or {file name: document}, input file type)."""
-    cont, keys = case["container"], case["keys"]
+    keys = case["keys"]
     files = case.get("files") or [0] * len(keys)
-    defs: list[dict] = [{}, {}]
+    defs: list[dict] = [{}, {}]  # per file: container -> key -> schema
     for i, k in enumerate(keys):
-        defs[files[i]][k] = {"type": "object", "properties": {f"mk{i}x": {"type": "integer"}}}
+        defs[files[i]].setdefault(cont_of(case, i), {})[k] = {"type": "object", "properties": {f"mk{i}x": {"type": "integer"}}}
+
+    def schema(j: int) -> dict:
+        return defs[files[j]][cont_of(case, j)][keys[j]]
+
     for i, j, kind in case["edges"]:
-        props = defs[files[i]][keys[i]]["properties"]
+        props = schema(i)["properties"]
         if kind == "array":
             props[f"a{i}to{j}"] = {"type": "array", "items": {"$ref": ref_to(case, i, j)}}
         elif kind == "deep":
-            defs[files[j]][keys[j]]["properties"][f"sub{j}"] = {"type": "object", "properties": {f"mkd{j}x": {"type": "integer"}}}
-            props[f"d{i}to{j}"] = {"$ref": ref_to(case, i, j, deep=True)}
+            schema(j)["properties"][f"sub{j}"] = {"type": "object", "properties": {f"mkd{j}x": {"type": "integer"}}}
+            props[f"d{i}to{j}"] = {"$ref": ref_to(case, i, j, "deep")}
         else:
-            props[f"r{i}to{j}"] = {"$ref": ref_to(case, i, j)}
-    if cont == "components/schemas":
-        return {"openapi": "3.0.0", "info": {"title": "t", "version": "1"}, "paths": {}, "components": {"schemas": defs[0]}}, "openapi"
+            if kind == "anchor" and files[i] == files[j]:
+                schema(j)["$id"] = f"#anc{j}"
+            props[f"r{i}to{j}"] = {"$ref": ref_to(case, i, j, kind)}
+    if case["container"] == "components/schemas":
+        return {"openapi": "3.0.0", "info": {"title": "t", "version": "1"}, "paths": {}, "components": {"schemas": defs[0].get("components/schemas", {})}}, "openapi"
     props = {"mkrootx": {"type": "integer"}}
     for i in case["root_refs"]:
         props[f"rRto{i}"] = {"$ref": ref_to(case, None, i)}
-    main = {"title": "RootDoc", "type": "object", "properties": props, cont: defs[0]}
+    main = {"title": "RootDoc", "type": "object", "properties": props, **defs[0]}
     if 1 in files:
-        return {"main.json": main, "other.json": {cont: defs[1]}}, "jsonschema"
+        return {"main.json": main, "other.json": dict(defs[1])}, "jsonschema"
     return main, "jsonschema"
 
 
@@ -676,8 +710,12 @@ def e2e_oracle(ck: Check, camp, case: dict) -> bool:
         camp.hit("edge:self")
     if any([j, i] in [[a, b] for a, b, _ in case["edges"]] and i != j for i, j, _ in case["edges"]):
         camp.hit("edge:mutual")
+    two = len(set(case.get("containers") or [])) > 1
+    if two:
+        camp.hit("two-containers")
     base = {
         "oracle": "e2e",
+        "shape": "two_containers" if two else ("cross_file" if multi else "single"),
         "container": case["container"],
         "kind": model,
         "key_classes": sorted({key_class(k) for k in keys}),
@@ -691,6 +729,7 @@ def e2e_oracle(ck: Check, camp, case: dict) -> bool:
     if res.hang:
         return fail("hang", "generate() did not return")
     if not res.ok:
+        base["error"] = res.error_type
         return fail("generation_error", f"{res.error_type}: {res.error_msg}")
     err = e2e.parses(res.code)
     if err:
@@ -714,6 +753,7 @@ def e2e_oracle(ck: Check, camp, case: dict) -> bool:
         return fail("extra_class", f"{len(table)} top-level classes for {n} definitions (+{len(subs)} nested): {names}")
     members = dict(table)
     checks = [(owner[i], (f"a{i}to{j}" if kind == "array" else f"r{i}to{j}"), j) for i, j, kind in case["edges"] if kind != "deep"]
+    checks = list(dict.fromkeys(checks))
     for i, j, kind in case["edges"]:
         if kind == "deep":
             ann = members[owner[i]].get(f"d{i}to{j}")
@@ -768,21 +808,26 @@ def gen_e2e_case(rng: Rng) -> dict:
     for i in range(n):
         for j in range(n):
             if rng.chance(1, 3):
-                edges.append([i, j, rng.choice(["ref", "ref", "ref", "ref", "array", "deep"])])
+                edges.append([i, j, rng.choice(["ref", "ref", "ref", "ref", "array", "deep", "anchor"])])
     if not any(i == j for i, j, _ in edges) and rng.chance(1, 2):
         edges.append([0, 0, "ref"])
     case = {
-        "container": rng.choice(E2E_CONTAINERS),
+        "container": (cont := rng.choice(E2E_CONTAINERS)),
         "keys": keys,
         "edges": edges,
         "root_refs": [i for i in range(n) if rng.chance(1, 2)],
         "model": rng.choice(["pydantic_v2.BaseModel"] * 5 + ["pydantic.BaseModel", "dataclasses.dataclass", "typing.TypedDict"]),
     }
+    if cont == "components/schemas":  # OpenAPI 3.0 schema objects have no `$id`: no anchors there
+        case["edges"] = [[i, j, "ref" if k == "anchor" else k] for i, j, k in edges]
     if case["container"] != "components/schemas" and rng.chance(1, 4):
         # cross-file: some definitions live in other.json; only what main.json reaches is generated,
         # so the root object references every definition
         case["files"] = [rng.below(2) for _ in range(n)]
         case["root_refs"] = list(range(n))
+    elif case["container"] != "components/schemas" and rng.chance(1, 8):
+        # a document with `definitions` AND `$defs`
+        case["containers"] = [rng.choice(["definitions", "$defs"]) for _ in range(n)]
     return case
 
 
@@ -794,6 +839,9 @@ E2E_CORPUS = [
     {"container": "components/schemas", "keys": ["Pet", "pet", "PetModel"], "edges": [[0, 1, "ref"], [1, 2, "ref"], [2, 0, "array"]], "root_refs": []},
     {"container": "definitions", "keys": ["Pet", "pet"], "edges": [[0, 1, "deep"], [1, 1, "ref"]], "root_refs": [0]},
     {"container": "definitions", "keys": ["Pet", "pet", "Pet_"], "edges": [[0, 1, "ref"], [1, 2, "ref"], [2, 0, "ref"]], "root_refs": [0, 1, 2], "files": [1, 1, 0]},
+    {"container": "definitions", "keys": ["Pet", "pet"], "edges": [[0, 1, "anchor"], [1, 0, "anchor"]], "root_refs": [1]},
+    {"container": "definitions", "keys": ["Pet", "Dog"], "edges": [], "root_refs": [], "containers": ["definitions", "$defs"]},
+    {"container": "definitions", "keys": ["Pet", "pet"], "edges": [[0, 1, "ref"]], "root_refs": [], "containers": ["definitions", "$defs"]},
 ]
 
 
@@ -818,8 +866,9 @@ def campaign_e2e(ck: Check, n: int, label: str = "", extra: list | None = None) 
         perm = rng.shuffle(list(range(len(case["keys"]))))
         inv = {old: new for new, old in enumerate(perm)}
         permuted = dict(case, keys=[case["keys"][i] for i in perm], edges=[[inv[i], inv[j], k] for i, j, k in case["edges"]], root_refs=[inv[i] for i in case["root_refs"]])
-        if "files" in case:
-            permuted["files"] = [case["files"][i] for i in perm]
+        for per_def in ("files", "containers"):
+            if per_def in case:
+                permuted[per_def] = [case[per_def][i] for i in perm]
         e2e_oracle(ck, camp, permuted)
     camp.wall_s = time.time() - t0
 
@@ -909,6 +958,15 @@ def run(ck: Check) -> None:
         "pathlib on POSIX without symlinks below the base path",
         "theorems hold for every class-name generator; `name_is_classform` speaks of that function, the concrete default form is only tested",
     ]
+    ck.notes["distinct_nontrivial_rules"] = {
+        "sequences": "distinct (options, operation prefix up to the first unmodelled op) whose final registry holds >= 2 entries",
+        "classForm/validName": "distinct inputs whose result differs from the input",
+        "joinPath": "distinct part lists with >= 2 non-empty parts",
+        "resolveRef": "distinct (root, ref) that resolve (no exception) on the real class",
+        "uniqueName": "distinct cases in which a suffix had to be appended",
+        "modpass": "distinct cases in which the pass renamed at least one class",
+        "e2e": "distinct documents (keys in order, edges, container, kind) on which the oracle passed; failures matching a known finding are counted in known_finding_hits_in_campaigns",
+    }
     campaign_sequences(ck, 400 if quick else 3000)
     campaign_functions(ck, 300 if quick else 3000)
     campaign_modpass(ck, 300 if quick else 3000)
